@@ -36,6 +36,19 @@ GOOD = ["t0", "t1", "t2", "t3", "t4"]
 MAXSLOT = 4
 
 
+def empty_grideval_defined():
+    """Is grid evaluation of an object without data a defined operation of the C++ core (an exception), or does it read
+    through the null arrays (process dies; the twin would die identically, so nothing could be learnt about the wrapper)?
+    Looks for a test of ndim before the first use of naxes in detail/grideval.h; PSV_C18_EMPTY_GRIDEVAL=0|1 overrides."""
+    env = os.environ.get("PSV_C18_EMPTY_GRIDEVAL")
+    if env in ("0", "1"): return env == "1"
+    try: src = open(os.path.join(psvlib.REPO, "include/photospline/detail/grideval.h")).read()
+    except OSError: return False
+    src = re.sub(r"/\*.*?\*/", "", src, flags=re.S); src = re.sub(r"//[^\n]*", "", src)
+    i = src.find("naxes[")
+    return i > 0 and re.search(r"\bndim\s*==\s*0|!\s*ndim\b|\bndim\s*<\s*1|0\s*==\s*ndim\b", src[:i]) is not None
+
+
 def wrapper_of(words):
     return GETTERS[words[2]] if words[0] == "get" else WRAPPER_OF[words[0]]
 
@@ -46,8 +59,8 @@ class SeqGen:
     ("valid handles": value wrappers and the wrappers without a `table->data` guard only see handles with an object,
     evaluation only sees loaded tables, init only sees a handle that owns nothing)."""
 
-    def __init__(self, rnd, side, stats):
-        self.r, self.side, self.stats = rnd, side["wrappers"], stats
+    def __init__(self, rnd, side, stats, empty_grideval=False):
+        self.r, self.side, self.stats, self.empty_grideval = rnd, side["wrappers"], stats, empty_grideval
 
     def checks_data(self, op):
         return "table->data" in self.side[WRAPPER_OF[op]]["nullChecked"]
@@ -100,6 +113,7 @@ class SeqGen:
         elif s == "empty":
             c += [("readmem", 5), ("readfile", 3), ("glamfit", 5), ("free", 2), ("writefile", 1), ("writemem", 1), ("getkey", 1), ("readkey", 1),
                   ("get_ndim", 1), ("writekey", 0.5), ("permute", 0.5), ("convolve", 0.7)]
+            if self.empty_grideval: c.append(("grideval", 0.7))
         else:
             c += [("get", 6), ("search", 3), ("eval", 3), ("grad", 2), ("deriv", 2), ("getkey", 2), ("readkey", 4), ("writekey", 3),
                   ("writefile", 1.5), ("writemem", 1.5), ("grideval", 2.5), ("permute", 2), ("convolve", 1.5), ("readfile", 1.5), ("readmem", 1.5),
@@ -129,7 +143,7 @@ class SeqGen:
         if op == "grideval":
             free = [k for k in range(MAXSLOT) if not slots[k]]
             if not free: return None
-            return "grideval %d %d %d" % (h, free[0], seed)
+            return "grideval %d %d %d%s" % (h, free[0], seed, " empty-ok" if s == "empty" else "")
         if op == "nddestroy":
             occ = [k for k in range(MAXSLOT) if slots[k]]
             return "nddestroy %d" % r.choice(occ)
@@ -454,7 +468,10 @@ def run(ctx, only=None):
     nseq = 220 if ctx.tier == "quick" else 5000
     stats = {"core_leak_sequences": 0}
     rnd = random.Random(ctx.seed * 1000003 + 18)
-    gen = SeqGen(rnd, side, stats)
+    eg = empty_grideval_defined()
+    ctx.coverage["grideval_on_object_without_data"] = "exercised (the core refuses it with an exception)" if eg else \
+        "not exercised: photospline::splinetable<>::grideval reads through null arrays when the object holds no data (proposed fix: fixes/C18-6.diff)"
+    gen = SeqGen(rnd, side, stats, eg)
     seqs = only if only is not None else [gen.sequence("s%d" % k) for k in range(nseq)]
     modes = ["san"] if ctx.tier == "quick" else ["san", "shipped"]
     evals = 0; distinct = set(); kinds = {}; outcomes = {}
